@@ -74,6 +74,55 @@ func abs(x int) int {
 	return x
 }
 
+// named scalar types with their own wire form (the Kind is int / bool / uint64, the JSON is not the bare scalar)
+type cpLevel int
+
+func (l cpLevel) MarshalJSON() ([]byte, error) { return json.Marshal(fmt.Sprintf("L%d", int(l))) }
+func (l *cpLevel) UnmarshalJSON(b []byte) error {
+	var s string
+	if err := json.Unmarshal(b, &s); err != nil {
+		return fmt.Errorf("level must be a string: %w", err)
+	}
+	var n int
+	if _, err := fmt.Sscanf(s, "L%d", &n); err != nil {
+		return err
+	}
+	*l = cpLevel(n)
+	return nil
+}
+
+type cpFlag bool
+
+func (f cpFlag) MarshalJSON() ([]byte, error) {
+	if f {
+		return []byte(`"yes"`), nil
+	}
+	return []byte(`"no"`), nil
+}
+func (f *cpFlag) UnmarshalJSON(b []byte) error {
+	switch string(b) {
+	case `"yes"`:
+		*f = true
+	case `"no"`:
+		*f = false
+	default:
+		return fmt.Errorf("flag must be yes/no, got %s", b)
+	}
+	return nil
+}
+
+type cpAmount uint64 // wire form: the amount in hundredths, itself a number
+
+func (a cpAmount) MarshalJSON() ([]byte, error) { return json.Marshal(uint64(a) * 100) }
+func (a *cpAmount) UnmarshalJSON(b []byte) error {
+	var n uint64
+	if err := json.Unmarshal(b, &n); err != nil {
+		return err
+	}
+	*a = cpAmount(n / 100)
+	return nil
+}
+
 // custom param encoder / decoder pair
 type cpEnc struct{ Parts []string }
 
@@ -235,6 +284,11 @@ func (h *CP) Pairs(a []int, b []int, c map[string]int, d map[string]int, e *cpIn
 	h.ret(len(a) + len(b))
 	return len(a) + len(b), nil
 }
+func (h *CP) Named(ctx context.Context, l cpLevel, f cpFlag, a cpAmount, p *cpLevel) (cpLevel, error) {
+	h.rec("Named", l, f, a, p)
+	h.ret(l + 1)
+	return l + 1, nil
+}
 func (h *CP) Raw(ctx context.Context, p jsonrpc.RawParams) (json.RawMessage, error) {
 	h.rec("Raw", []byte(p))
 	h.ret(json.RawMessage(p))
@@ -268,6 +322,7 @@ type cpClient struct {
 	Mixed      func(ctx context.Context, a int8, b uint16, c float32, d *string, e [2]int, f []cpOuter) (cpOuter, error)
 	Raw        func(ctx context.Context, p jsonrpc.RawParams) (json.RawMessage, error)
 	RawE       func(p jsonrpc.RawParams) error
+	Named      func(ctx context.Context, l cpLevel, f cpFlag, a cpAmount, p *cpLevel) (cpLevel, error)
 	Pairs      func(a []int, b []int, c map[string]int, d map[string]int, e *cpInner, f *cpInner, g cpInner, i cpInner) (int, error)
 }
 
@@ -522,6 +577,10 @@ func callpathFamily(seed uint64, tier string, args []string) {
 	add("Mixed", int8(5), uint16(65535), float32(0.1), sp("d"), [2]int{1, -2}, outers)
 	add("Mixed", int8(-128), uint16(0), float32(3.4e38), (*string)(nil), [2]int{}, []cpOuter(nil))
 	add("Mixed", int8(127), uint16(1), float32(-0.0), sp(""), [2]int{math.MaxInt64, math.MinInt64}, []cpOuter{})
+	lv := cpLevel(3)
+	add("Named", cpLevel(2), cpFlag(true), cpAmount(7), &lv)
+	add("Named", cpLevel(0), cpFlag(false), cpAmount(0), (*cpLevel)(nil))
+	add("Named", cpLevel(-5), cpFlag(true), cpAmount(184467440737095516), &lv)
 	add("Pairs", []int{1, 2, 3}, []int{9, 8}, map[string]int{"a": 1}, map[string]int{"b": 2, "c": 3}, &cpInner{A: 1, B: sp("x")}, &cpInner{A: 2}, cpInner{A: 1, B: sp("x")}, cpInner{A: 2})
 	add("Pairs", []int{}, []int(nil), map[string]int{}, map[string]int(nil), (*cpInner)(nil), &cpInner{}, cpInner{}, cpInner{B: sp("")})
 	add("Pairs", []int{7, 7, 7, 7}, []int{1}, map[string]int{"k": 1, "l": 2}, map[string]int{"k": 5}, &cpInner{A: 9, B: sp("keep?")}, (*cpInner)(nil), cpInner{A: 3, B: sp("b")}, cpInner{})
